@@ -54,6 +54,22 @@ OPS = [
     (re.compile(r"\.push\(([^;]{1,60})\);"), [";"]),
     (re.compile(r"\.clear\(\);"), [";"]),
     (re.compile(r"\b(\d{1,4})\b(?![\.\w])"), ["__INC__", "__DEC__"]),
+    (re.compile(r"\.split_once\("), [".rsplit_once("]),
+    (re.compile(r"\.rsplit_once\("), [".split_once("]),
+    (re.compile(r"\.strip_prefix\("), [".strip_suffix("]),
+    (re.compile(r"\.strip_suffix\("), [".strip_prefix("]),
+    (re.compile(r"\.find\("), [".rfind("]),
+    (re.compile(r"\.position\("), [".rposition("]),
+    (re.compile(r"\.any\("), [".all("]),
+    (re.compile(r"\.all\("), [".any("]),
+    (re.compile(r"\.take\("), [".skip("]),
+    (re.compile(r"\.skip\("), [".take("]),
+    (re.compile(r"(?<=[\w\)\]])\s\+\s(?=[\w\(])"), [" - "]),
+    (re.compile(r"(?<=[\w\)\]])\s-\s(?=[\w\(])"), [" + "]),
+    (re.compile(r"(?<=[\w\)\]])\s\*\s(?=[\w\(])"), [" / "]),
+    (re.compile(r"<<"), [">>"]),
+    (re.compile(r"(?<=[\w\)\]])\s\|\s(?=[\w\(])"), [" & "]),
+    (re.compile(r"(?<=[\w\)\]])\s&\s(?=[\w\(])"), [" | "]),
     (re.compile(r"\btrue\b"), ["false"]),
     (re.compile(r"\bfalse\b"), ["true"]),
     (re.compile(r"b'(.)'"), ["__BYTE__"]),
@@ -117,6 +133,16 @@ def sites(path):
                         new = m.expand(rep) if "\\1" in rep else rep
                     if new == seg: continue
                     res.append((i, m.start(), m.end(), new, oi))
+    # string literals (masked out above): drop the last character of a short literal
+    for i in ok:
+        if "#[" in lines[i] or "feature" in lines[i] or "cfg" in lines[i] or "include" in lines[i]: continue
+        for m in re.finditer(r'(?<![br\w])b?"((?:[^"\\\n]|\\.){1,24})"', lines[i]):
+            inner = m.group(1)
+            if inner.endswith("\\") or len(inner) < 1 or "{" in inner: continue
+            cut = inner[:-1]
+            if cut.endswith("\\"): continue
+            new = lines[i][m.start():m.end()].replace(inner, cut, 1)
+            res.append((i, m.start(), m.end(), new, 999))
     return lines, res
 
 def files_of(pid, repo):
